@@ -12,17 +12,20 @@ Open Scope N_scope.
 
 (* For every generator full validation accepts (within the block cost limit): additions_and_removals succeeds;
    its removals are exactly [(coin id, coin)] of the validated spends, in order; its additions are exactly the
-   created coins of the validated spends (per spend, in condition order) — always as coins, and with the same hints
-   unless the block is in the witness class of finding F-C09-1 (some addition reported with the empty hint). *)
+   created coins of the validated spends (per spend, in condition order) with exactly the hints the validated
+   summary reports (an empty first memo is "no hint" on both sides since fix 0a21e864). *)
 Theorem C09_additions_and_removals : forall run valid_key sig_ok H K, run_exact_hyp run ->
   forall program refs max_cost gf b spends pairs,
     run_block_generator2 run valid_key sig_ok H K program refs max_cost gf = Ok (b, spends, pairs) ->
     max_cost <= MAX_BLOCK_COST_CLVM ->
-    exists adds,
-      additions_and_removals run H program refs gf = Ok (adds, map removal_of spends) /\
-      map fst adds = map fst (concat (map expected_additions spends)) /\
-      (~ known_class_empty_hint adds -> adds = concat (map expected_additions spends)).
+    additions_and_removals run H program refs gf =
+      Ok (concat (map expected_additions spends), map removal_of spends).
 Proof. exact trusted_additions_and_removals. Qed.
+
+(* the helper never reports the empty hint *)
+Theorem C09_no_empty_hint : forall run H program refs gf adds rems,
+  additions_and_removals run H program refs gf = Ok (adds, rems) -> Forall hint_nonempty adds.
+Proof. exact additions_hints. Qed.
 
 (* finer: per spend, the reported group maps onto the validated created coins with
    nc_hint = the reported hint's bytes (None and Some "" both become "no hint") *)
@@ -35,39 +38,35 @@ Theorem C09_additions_per_spend : forall run valid_key sig_ok H K, run_exact_hyp
       Forall2 group_ok spends groups.
 Proof. exact ar_correct. Qed.
 
-(* REFUTED hint clause (finding F-C09-1): a block full validation accepts for which additions_and_removals
-   reports the hint Some "" where the validated conditions report no hint *)
-Theorem C09_hints_refuted :
+(* the former witness of F-C09-1 (empty-atom first memo), now a positive instance *)
+Theorem C09_empty_memo_example :
   exists run H, run_exact_hyp run /\
   exists vk sig K program refs max_cost gf b spends pairs adds rems,
     max_cost <= MAX_BLOCK_COST_CLVM /\
     run_block_generator2 run vk sig H K program refs max_cost gf = Ok (b, spends, pairs) /\
     additions_and_removals run H program refs gf = Ok (adds, rems) /\
-    map snd adds = [Some []] /\
-    map snd (concat (map expected_additions spends)) = [None].
-Proof. exact hints_refuted. Qed.
+    map snd adds = [None] /\ adds = concat (map expected_additions spends).
+Proof. exact empty_memo_example. Qed.
 
-(* Lookup: for every accepted generator whose spend tuples carry no spend-level extras, looking up the i-th
-   removed coin in the generator's output returns the i-th tuple's puzzle and solution *)
+(* Lookup: for every accepted generator, looking up the i-th removed coin in the generator's output returns the
+   i-th tuple's puzzle and solution (spend-level extras are ignored since fix 1aa0e3f6) *)
 Theorem C09_lookup : forall run valid_key sig_ok H K program refs max_cost gf b spends pairs,
   run_block_generator2 run valid_key sig_ok H K program refs max_cost gf = Ok (b, spends, pairs) ->
   exists out iter,
     native_generator_output run program refs max_cost gf = Ok out /\ first out = Ok iter /\
-    (no_extras iter ->
-     Forall2 (fun sp t => let '(_, pz, _, sol) := t in
-                          get_puzzle_and_solution_for_coin H out (snd (removal_of sp)) = Ok (pz, sol))
-             spends (spend_tuples iter)).
+    Forall2 (fun sp t => let '(_, pz, _, sol) := t in
+                         get_puzzle_and_solution_for_coin H out (snd (removal_of sp)) = Ok (pz, sol))
+            spends (spend_tuples iter).
 Proof. exact lookup_correct. Qed.
 
-(* REFUTED lookup clause without the premise (finding F-C09-2): an accepted block with a spend-level extra
-   whose removed coin cannot be looked up *)
-Theorem C09_lookup_extras_refuted :
+(* the former witness of F-C09-2 (a spend-level extra after the solution), now a positive instance *)
+Theorem C09_lookup_extras_example :
   exists run H, run_exact_hyp run /\
-  exists vk sig K program refs max_cost gf b sp pairs out,
+  exists vk sig K program refs max_cost gf b sp pairs out ps,
     run_block_generator2 run vk sig H K program refs max_cost gf = Ok (b, [sp], pairs) /\
     native_generator_output run program refs max_cost gf = Ok out /\
-    (exists e, get_puzzle_and_solution_for_coin H out (snd (removal_of sp)) = Err e).
-Proof. exact lookup_extras_refuted. Qed.
+    get_puzzle_and_solution_for_coin H out (snd (removal_of sp)) = Ok ps.
+Proof. exact lookup_extras_example. Qed.
 
 (* Recovered coin spends: for every accepted generator, get_coinspends_for_trusted_block returns one coin spend per
    validated spend, in order: the validated coin with the serialized puzzle reveal and solution of its tuple *)
@@ -89,7 +88,7 @@ Theorem C09_example :
     max_cost <= MAX_BLOCK_COST_CLVM /\
     run_block_generator2 run vk sig H K program refs max_cost gf = Ok (b, spends, pairs) /\
     additions_and_removals run H program refs gf = Ok (adds, map removal_of spends) /\
-    ~ known_class_empty_hint adds /\ map snd adds = [Some (repeat x33 32)].
+    map snd adds = [Some (repeat x33 32)].
 Proof. exact trusted_example. Qed.
 
 (* C09_rebuild_partial / C09_spend_bundle_additions_partial / C09_coin_spends_with_conditions_partial:
